@@ -450,7 +450,7 @@ def run_conc(res, binp, mode, acceptor, seed, total, extra=(), tag=None, label=N
                 continue
             agg["monitor_failures"] += 1
             if agg["monitor_failures"] <= 30:
-                res.add(Problem("monitor", f"{label}: {(mm.group(2) if mm else rest)[:700]}",
+                res.add(Problem("monitor", f"{label}: {(mm.group(2) if mm else re.sub('^FAIL ', '', rest))[:700]}",  # no Cxx tag (panic, wrong variant): every check reports it
                                 {"program": o["progs"].get(k), "replay_cmd": re.sub(r"-first \d+ -runs \d+", f"-only {k}", o["cmd"])},
                                 key=(o["progs"].get(k) or "") + " " + rest[:200]))
     agg["distinct_programs"] = len(progs)
